@@ -6,9 +6,96 @@ depths after the failure are those captured on entry. Op: `contain <kind> <site>
 <depth-before d,s,a> <hex program…>`; answer `contained d,s,a`.
 -/
 import ZygoVerif.Model.Control
+import ZygoVerif.Model.VM
+import ZygoVerif.Spec.RefEval
+import ZygoVerif.Driver.Eval
 import ZygoVerif.Driver.Proto
 namespace ZygoVerif.Driver.Contain
 open ZygoVerif.Control
+
+/-! ## ops of kind `core`: the failing history on the executable VM model, the twin history on
+the reference evaluator
+
+`contain core <site> <count> 0,1,0 <history A> <history B> <sub-kind>`; a history is a list of
+texts joined by `|` (blank = `~`). Model column: history A (setup | failing program | battery)
+run on `VM.runText` from the fresh interpreter, one record per text
+`<class> <value> T[…] D[d,s,a,l] E[end|not] B[global|nil|other|empty]` — class, value, the four
+depths, "curfunc = mainfunc and pc at/behind its end", and what stands at the bottom of the
+scope stack: exactly what `vm_text_error_at_rest` / `VmErrorAtRestExact` speak about.
+Spec column, written from the property text: the setup answers as the reference evaluator
+says; the failing program answers `err` (an error is never swallowed) and leaves the
+interpreter at rest; every later text answers what the reference evaluator answers on the
+TWIN history B (setup | prefix | battery) — and leaves the interpreter at rest. `-` when the
+reference evaluator does not decide (text outside its domain, fuel). -/
+
+def atRestSuffix : String := "D[0,1,0,0] E[end] B[global]"
+
+def vmEnd (s : VM.St) : String :=
+  if s.curfunc == VM.mainFn && decide (VM.curSize s ≤ s.pc) then "end" else "not"
+
+def vmBottom (s : VM.St) : String :=
+  match s.linear.getLast? with
+  | none => "empty"
+  | some none => "nil"
+  | some (some 0) => "global"
+  | some (some _) => "other"
+
+def vmRecord (o : VM.Outcome) (s : VM.St) : String :=
+  match o with
+  | .done cls v t d =>
+    if cls == "panic" || cls == "timeout" then s!"{cls} {v} {Eval.showTrace t} D[{d}]"
+    else s!"{cls} {v} {Eval.showTrace t} D[{d}] E[{vmEnd s}] B[{vmBottom s}]"
+  | .dead => "dead"
+
+def vmHistory : List String → VM.St → Bool → List String
+  | [], _, _ => []
+  | t :: ts, s, alive =>
+    if !alive then "dead" :: vmHistory ts s false else
+    match Core.readAll t with
+    | none => s!"cerr - T[] D[{VM.depths s}] E[{vmEnd s}] B[{vmBottom s}]" :: vmHistory ts s true
+    | some sxs =>
+      let (o, s', alive') := VM.runText Eval.vmFuel (Core.elabProgram sxs) s
+      vmRecord o s' :: vmHistory ts s' alive'
+
+/-- the reference evaluator on a history; `none` = undecided -/
+def refHistory : List String → Ref.St → Option (List Ref.Outcome)
+  | [], _ => some []
+  | t :: ts, s =>
+    match Core.readAll t with
+    | none => none
+    | some sxs =>
+      let es := Core.elabProgram sxs
+      if !Ref.wfList {} es then none
+      else
+        let (o, s') := Ref.runProgram Eval.refFuel es s
+        match o with
+        | .timeout => none
+        | _ => (refHistory ts s').map (o :: ·)
+
+def refRecord : Ref.Outcome → String
+  | .ok v t => s!"ok {v} {Eval.showTrace t} {atRestSuffix}"
+  | .err t => s!"err - {Eval.showTrace t} {atRestSuffix}"
+  | .timeout => "-"
+
+def coreSpec (site : String) (histB : List String) : String :=
+  match refHistory histB Ref.initSt with
+  | none => "-"
+  | some (setup :: prefixO :: rest) =>
+    let okPrefix := match prefixO with | .ok _ _ => true | _ => false
+    if !okPrefix then "-" else
+    -- the failing program: an error, at rest (control op `site = 0`: the program itself, a value)
+    let progRec := if site == "0" then refRecord prefixO else s!"err - T[] {atRestSuffix}"
+    "contained " ++ " ;; ".intercalate (refRecord setup :: progRec :: rest.map refRecord)
+  | some _ => "-"
+
+def handleCore (toks : List String) : String :=
+  match toks with
+  | site :: _count :: _before :: ha :: hb :: _ =>
+    let histA := ha.splitOn "|"
+    let histB := hb.splitOn "|"
+    let m := "contained " ++ " ;; ".intercalate (vmHistory histA VM.initSt true)
+    s!"{m}\t{coreSpec site histB}"
+  | _ => "bad-op\t-"
 
 def mkCtl (d s a : Nat) : Ctl Unit Unit Unit Unit :=
   { data := List.replicate d (some ()), scopeId := 0, scopes := fun _ => List.replicate s (some ()),
@@ -16,6 +103,7 @@ def mkCtl (d s a : Nat) : Ctl Unit Unit Unit Unit :=
 
 def handle (toks : List String) : String :=
   match toks with
+  | "core" :: rest => handleCore rest
   | _kind :: _site :: _count :: before :: _ =>
     match (before.splitOn ",").map String.toNat? with
     | [some d, some s, some a] =>
